@@ -40,7 +40,7 @@ Record frec := mkRec { r_path : string; r_fmt : N; r_size : Z }.
 Inductive kind := KFile | KMem | KChained.
 Record cfg := mkCfg { c_kind : kind; c_fmt : N }.
 
-Inductive err := Conflict | NotFound | Integrity | DecodeErr | KeyErr | ValueErr | NotImpl.
+Inductive err := Conflict | NotFound | Integrity | DecodeErr | KeyErr | ValueErr | NotImpl | TypeErr.
 Inductive outcome := Done | Refused (e : err).
 
 (* ---- association lists ---------------------------------------------------------------------- *)
